@@ -162,7 +162,8 @@ impl Dictionary for MutableDictionary {
         let mut buf_a = Vec::with_capacity(53);
         let mut buf_b = Vec::with_capacity(53);
 
-        // Sort by edit-distance
+        // Sort by edit-distance, then by spelling, so that ties do not fall in the
+        // (randomized) iteration order of the underlying hash map.
         words_to_search
             .filter_map(|word| {
                 let dist =
@@ -181,7 +182,7 @@ impl Dictionary for MutableDictionary {
                     None
                 }
             })
-            .sorted_unstable_by_key(|a| a.1)
+            .sorted_unstable_by_key(|a| (a.1, a.0))
             .take(max_results)
             .map(|(word, edit_distance)| FuzzyMatchResult {
                 word,
